@@ -20,6 +20,7 @@ SPEC = "Mailbox"
 KINDS = {
     "mpsc":    ("fifo", 0, 0),
     "seg":     ("fifo", 0, 0),
+    "segroll": ("fifo", 0, 0),      # segmented mailbox with the concurrent phase straddling a segment roll-over
     "fair":    ("fair", 0, 0),
     "nbring":  ("fifo", 3, 4),      # capacity is rounded up to a power of two (documented)
     "bounded": ("fifo", 4, 4),
@@ -144,7 +145,7 @@ def run(ctx, pid):
                 tolerated[kind] += n
                 continue
             for one in rel.split(","):
-                fid = "%s:%s" % (one, kind)
+                fid = "%s:%s" % (one, "seg" if kind == "segroll" else kind)
                 k = ctx.is_known(fid)
                 if k:
                     known_hits[fid] += n
